@@ -93,6 +93,35 @@ CLAIMS = {
             "single-document files only in the CLI stage; kinds beyond the sampled universes are seen only through "
             "the corpus; every CLI run is an isolated child under timeout",
             "DESIGN.md section 3 C01"),
+    "C06": ("model_checking",
+            "TLA+ edit algebra (Replace.tla: Splice, overlap filter, rewriter splice) model-checked by TLC over token "
+            "lists with 1/2/4-byte tokens x matched sets x expansions; real edits of Node::replace_all, sg scan --json and "
+            "the file after -U judged by TLC",
+            "MC_C06 checks that the edits replace_all proposes for every token list, matched subset, expandStart/expandEnd "
+            "reach and replacement length are in bounds, ordered and disjoint and that substituting them preserves every "
+            "other byte. A sample of those scenarios (rendered as JavaScript with multi-byte identifiers, CRLF variants), "
+            "hand-picked shapes (nested matches, trimmed trailing punctuation, syntax errors) and patterns cut from corpus "
+            "files are run through the real code; Trace_Fix checks each library edit against the projected tree (bounds, "
+            "character boundaries via Positions.tla, start at the node / at a sibling when expanded, end on a descendant "
+            "boundary, UTF-8), order/disjointness, and that the file after --update-all equals Splice(original, "
+            "FilterOverlap(announced edits)) with the announced count.",
+            "the `rewrite` transformation clause is exercised only through rules of the corpus scenarios (no dedicated "
+            "rewriter generator yet); tree-sitter node boundaries are trusted to be character boundaries of the projection",
+            "DESIGN.md section 3 C06"),
+    "C07": ("model_checking",
+            "transcribed de-indent/re-indent arithmetic (Indent.tla) model-checked against a line-level statement "
+            "(Template.tla) over indent vectors; TLC's layouts and multi-line corpus captures replayed through "
+            "generate_replacement and judged by TLC",
+            "Indent.tla transcribes get_indent_at_offset (with the look-behind window), extract_with_deindent, indent_lines, "
+            "remove_indent, the slot indents of the scanned template and the outer re-indent by the match site; "
+            "Template.tla states C07 on lines (verbatim substitution, unbound = empty, continuation line indent = own - "
+            "first + slot + site). MC_C07 checks transcription = statement and self-rewrite = identity for every site "
+            "indent x own-line/same-line capture x continuation-line indents x 6 template shapes. The same layouts "
+            "(rendered as JavaScript) and multi-line named nodes cut from corpus files in ~20 languages are run through the "
+            "real Replacer; Trace_Fix compares the generated text with the statement (alarm) and the transcription (drift).",
+            "judged for space-indented LF text and lines shorter than the 512-byte window, captures without blank or "
+            "under-indented continuation lines (the property's own restriction)",
+            "DESIGN.md section 3 C07"),
 }
 
 NOT_YET = "check not built yet in this round (construction order in DESIGN.md section 9); not claimed until it runs"
